@@ -257,75 +257,107 @@ def static_input_ops(prog) -> set[str]:
 
 
 def r5_order_offset(ctx, rule="C03.R5") -> None:
+    """stated over path summaries (hv/paths.py): insensitive to local names, guard-clause / if-else layout,
+    conditional expressions and extracted helpers"""
     prog = ctx.program
     hugr = prog.cls(f"{BASE}.Hugr")
     file = hugr.module.path
     co = hugr.methods.get("_constrain_offset")
     if co is None:
         ctx.broken("anchor vanished: Hugr._constrain_offset")
-    # negative branch
-    neg = [n for n in ast.walk(co) if isinstance(n, ast.If) and "offset" in u(n.test) and ("< 0" in u(n.test) or "== -1" in u(n.test))]
-    if not neg:
+    ps = [p for p in ctx.paths(f"{BASE}.Hugr._constrain_offset") if p.kind == "return"]
+    param = co.args.args[1].arg
+    order_paths = [p for p in ps if p.value_text() != f"{param}.offset"]
+    if not order_paths:
         ctx.fail(rule, "Hugr._constrain_offset: order branch", file, co.lineno,
                  "no branch handles the order port (offset -1): it would be written as a negative offset", co)
         return
-    branch = neg[0]
-    # all counter reads in the branch must sit under `if <x> is None` where x was assigned from a signature helper
-    sig_helpers = []
-    for c in calls_in(branch):
-        if isinstance(c.func, ast.Attribute) and u(c.func.value) == "self":
-            k, m = hugr.find_method(c.func.attr)
-            if m is not None and _reads_signature(m):
-                sig_helpers.append((c, m))
-    counter_reads = [n for n in ast.walk(branch) if (isinstance(n, ast.Attribute) and n.attr in COUNTERS) or (isinstance(n, ast.Name) and n.id in COUNTERS)]
-    guarded = []
-    for n in counter_reads:
-        g = [i for i in ast.walk(branch) if isinstance(i, ast.If) and i is not branch and n in list(ast.walk(i)) and " is None" in u(i.test)]
-        guarded.append(bool(g) and any(n in list(ast.walk(s)) for s in g[0].body))
-    ok = bool(sig_helpers) and all(guarded)
-    ctx.check(ok, rule, "Hugr._constrain_offset: order port from the signature", file, branch.lineno,
+
+    def helper_calls(e):
+        out = []
+        for c in ast.walk(e):
+            if isinstance(c, ast.Call) and isinstance(c.func, ast.Attribute) and u(c.func.value) == "self":
+                k, m = hugr.find_method(c.func.attr)
+                if m is not None and _reads_signature(m):
+                    out.append((c, m))
+        return out
+
+    def counter_reads(e):
+        return [n for n in ast.walk(e) if (isinstance(n, ast.Attribute) and n.attr in COUNTERS) or (isinstance(n, ast.Name) and n.id in COUNTERS)]
+
+    sig_helpers = [h for p in order_paths for h in helper_calls(p.value)]
+    bad = []
+    for p in order_paths:
+        cr = counter_reads(p.value)
+        if not cr:
+            continue
+        # a counter may be returned only where the signature helper answered None (not a dataflow operation)
+        guarded = any((not taken) and isinstance(t, ast.Compare) and isinstance(t.ops[0], ast.IsNot) and helper_calls(t.left) for t, taken in p.tests)
+        if not guarded:
+            bad.append((p, cr[0]))
+    ok = bool(sig_helpers) and not bad
+    where = bad[0][0].node if bad else co
+    ctx.check(ok, rule, "Hugr._constrain_offset: order port from the signature", file, getattr(where, "lineno", co.lineno),
               "the offset written for a state-order edge is taken from the node's connection counters "
-              f"(`{u(counter_reads[0]) if counter_reads else ''}`), which depend on how many ports happen to be linked: for a node whose last "
+              f"(`{u(bad[0][1]) if bad else ''}`), which depend on how many ports happen to be linked: for a node whose last "
               "value port is unused the order edge lands on that value port. It must be the first port after the operation's value (and static) ports",
-              branch, expected="len(signature.input/output) (+1 for a static input)", found=u(branch.body[-1])[:160],
+              where, expected="len(signature.input/output) (+1 for a static input)", found=bad[0][0].describe()[:200] if bad else "",
               detail=f"from {sig_helpers[0][1].name}() with a counter fallback only for non-dataflow ops" if sig_helpers else "")
     if not sig_helpers:
         return
     helper = sig_helpers[0][1]
+    hq = f"{BASE}.Hugr.{helper.name}"
+    hps = [p for p in ctx.paths(hq) if p.kind == "return" and not (isinstance(p.value, ast.Constant) and p.value.value is None)]
     # table: outgoing -> len(output); incoming -> len(input) + static input for exactly the ops that own one
-    src = u(helper)
-    rets = [r for r in ast.walk(helper) if isinstance(r, ast.Return) and r.value is not None and not (isinstance(r.value, ast.Constant) and r.value.value is None)]
-    out_ok = any("output" in u(r.value) and "input" not in u(r.value) for r in rets)
-    in_ok = any("input" in u(r.value) and "output" not in u(r.value) for r in rets)
-    ctx.check(out_ok and in_ok, rule, f"Hugr.{helper.name}: direction table", file, helper.lineno,
+    def dirn(p):
+        for t, taken in p.tests:
+            if isinstance(t, ast.Compare) and isinstance(t.ops[0], ast.Eq):
+                txt = u(t)
+                if "OUTGOING" in txt:
+                    return "out" if taken else "in"
+                if "INCOMING" in txt:
+                    return "in" if taken else "out"
+        return None
+    outs = [p for p in hps if dirn(p) == "out"]
+    ins = [p for p in hps if dirn(p) == "in"]
+    out_ok = bool(outs) and all(".output" in p.value_text() and ".input" not in p.value_text() for p in outs)
+    in_ok = bool(ins) and all(".input" in p.value_text() and ".output" not in p.value_text() for p in ins)
+    ctx.check(out_ok and in_ok and len(outs) + len(ins) == len(hps), rule, f"Hugr.{helper.name}: direction table", file, helper.lineno,
               "the order port must follow len(sig.output) for outgoing and len(sig.input)(+static) for incoming ports", helper,
-              found="; ".join(u(r.value) for r in rets))
+              found="; ".join(p.describe() for p in hps)[:400])
     # operations with a static (function / constant) input port: frozen from specification/hugr.md (Call, LoadConstant, LoadFunction);
     # that the port_kind arms of exactly these classes offer a Function/Const kind on an input is C06.R3's business
     want = {"Call", "LoadConst", "LoadFunc"}
-    isin = [c for c in calls_in(helper) if u(c.func) == "isinstance" and len(c.args) == 2]
-    named = set()
-    for c in isin:
-        parts = _flat_or(c.args[1])
-        if set(parts) & want or any("static" in u(s).lower() for s in ast.walk(helper) if isinstance(s, ast.Assign) and c in list(ast.walk(s))):
-            if set(parts) >= {"Call"} and len(parts) > 1 or set(parts) == want:
-                named = set(parts)
-    ctx.check(named == want, rule, f"Hugr.{helper.name}: static input owners", file, helper.lineno,
+    named_sets = []
+    for p in ins:
+        sets = [set(_flat_or(c.args[1])) for c in ast.walk(p.value) if isinstance(c, ast.Call) and u(c.func) == "isinstance" and len(c.args) == 2]
+        # the static input may also be decided by a test on the path (if isinstance(op, ..): return n + 1)
+        if not sets:
+            sets = [set(_flat_or(t.args[1])) for t, taken in p.tests if taken and isinstance(t, ast.Call) and u(t.func) == "isinstance" and len(t.args) == 2
+                    and "+ 1" in p.value_text()]
+        named_sets.append(sets)
+    flat = [s_ for sets in named_sets for s_ in sets if s_ & (want - {"Call"})]
+    named = set().union(*flat) if flat else set()
+    ctx.check(bool(flat) and all(s_ == want for s_ in flat), rule, f"Hugr.{helper.name}: static input owners", file, helper.lineno,
               f"the operations counted as having a static input port ({sorted(named)}) must be exactly those whose port_kind offers a "
               f"Function/Const kind on an input ({sorted(want)})", helper, expected=str(sorted(want)), found=str(sorted(named)))
     # only Call (which is not a DataflowOp) takes its value ports from its instantiation; every DataflowOp from outer_signature()
     inst_guards = []
-    for n in ast.walk(helper):
-        if isinstance(n, ast.If) and any(isinstance(x, ast.Attribute) and x.attr == "instantiation" for b in n.body for x in ast.walk(b)):
-            for c in ast.walk(n.test):
-                if isinstance(c, ast.Call) and u(c.func) == "isinstance" and len(c.args) == 2:
-                    inst_guards.append(set(_flat_or(c.args[1])))
-    ctx.check(inst_guards == [{"Call"}], rule, f"Hugr.{helper.name}: only Call reads its instantiation", file, helper.lineno,
-              f"the branch that takes the value ports from `.instantiation` must apply to Call only (found {inst_guards}): LoadFunc is a DataflowOp whose own "
+    for p in hps:
+        if ".instantiation" in p.value_text():
+            taken = [set(_flat_or(t.args[1])) for t, k in p.tests if k and isinstance(t, ast.Call) and u(t.func) == "isinstance" and len(t.args) == 2]
+            narrow = set.intersection(*taken) if taken else set()
+            inst_guards.append(narrow)
+    ok = bool(inst_guards) and all(g == {"Call"} for g in inst_guards)
+    ctx.check(ok, rule, f"Hugr.{helper.name}: only Call reads its instantiation", file, helper.lineno,
+              f"the paths that take the value ports from `.instantiation` must apply to Call only (found {inst_guards}): LoadFunc is a DataflowOp whose own "
               "signature is [] -> [instantiation], so its order port follows outer_signature()", helper, expected="[{'Call'}]", found=str(inst_guards))
-    uses_inst = "instantiation" in src
-    ctx.check(uses_inst, rule, f"Hugr.{helper.name}: Call uses its instantiation", file, helper.lineno,
+    ctx.check(bool(inst_guards), rule, f"Hugr.{helper.name}: Call uses its instantiation", file, helper.lineno,
               "for Call the value ports are those of the instantiated signature (Call is not a DataflowOp)", helper)
+    others = [p for p in hps if ".instantiation" not in p.value_text()]
+    ok = bool(others) and all("outer_signature()" in p.value_text() for p in others)
+    ctx.check(ok, rule, f"Hugr.{helper.name}: dataflow ops use their outer signature", file, helper.lineno,
+              "every dataflow operation other than Call takes its value ports from outer_signature()", helper)
 
 
 def _flat_or(e) -> list[str]:
